@@ -377,3 +377,44 @@ example : docBody "@-x".toList = "-x".toList ∧ docBody "--y+".toList = "y".toL
     docBody "+z-".toList = "z".toList ∧ docIndent 3 "--y+".toList = (1, 2) := by decide
 
 end Shroud.Lines
+
+namespace Shroud.Lines
+
+/-! ### whole files: `write_output_file` -/
+
+/-- Every file starts with a header made of comment lines only (file name,
+    generator/version stamp, copyright), each beginning with the language's
+    comment leader, followed by exactly what `write_lines` emits for the
+    output list at indentation 0 – for every output list, version string and
+    copyright block.  (The version stamp therefore only ever changes a comment: C16.) -/
+theorem wof_header_then_body (comment fname version : List Char) (copyright : List (List Char))
+    (linelen : Nat) (spaces cont : List Char) (output : List Item) :
+    ∃ hdr w, writeLines linelen spaces cont 0 output = .ok w ∧
+      writeOutputFile comment fname version copyright linelen spaces cont output = .ok (hdr ++ w.lines) ∧
+      hdr.length = 2 + copyright.length ∧ ∀ l ∈ hdr, comment <+: l := by
+  obtain ⟨w, hw⟩ := wl_total linelen spaces cont 0 output
+  refine ⟨(comment ++ ' ' :: fname)
+      :: (comment ++ " This file is generated by Shroud ".toList ++ version ++ ". Do not edit.".toList)
+      :: copyrightLines comment copyright, w, hw, ?_, ?_, ?_⟩
+  · simp [writeOutputFile, hw]
+  · have : ∀ cs : List (List Char), (copyrightLines comment cs).length = cs.length := by
+      intro cs; induction cs with
+      | nil => rfl
+      | cons c cs ih => simp [copyrightLines, ih]
+    simp [this]; omega
+  · intro l hl
+    simp only [List.mem_cons] at hl
+    rcases hl with rfl | rfl | hl
+    · exact List.prefix_append _ _
+    · rw [List.append_assoc, List.append_assoc]; exact List.prefix_append _ _
+    · induction copyright with
+      | nil => simp [copyrightLines] at hl
+      | cons c cs ih =>
+        simp only [copyrightLines, List.mem_cons] at hl
+        rcases hl with rfl | hl
+        · split
+          · exact List.prefix_refl _
+          · exact List.prefix_append _ _
+        · exact ih hl
+
+end Shroud.Lines
